@@ -26,6 +26,7 @@ func init() {
 				"R4.slots":       "slot-list parser guards and order",
 				"R4.bounds":      "bounds obligations of the slot operations",
 				"R5.frames":      "the framed writer both sides share puts the length prefix and then the whole payload on the wire",
+				"R6.pem":         "the certificate bundle a slot reply carries is decoded by the PEM loop over the lenient certificate parser (C16's rules for that loop, imported)",
 			},
 		},
 		Run: runC13,
@@ -35,6 +36,22 @@ func init() {
 func runC13(c *Ctx) {
 	w := c.w
 	tablesC13(c)
+	// slot reading / attestation hand the caller the certificates of the reply: every block of the bundle, in order, through
+	// the parser that accepts what the YubiKey firmware emits (a stricter parser turns a good reply into an error)
+	{
+		seen, notes := map[string]bool{}, len(c.Notes)
+		for k, v := range c.Analysed {
+			seen[k] = v
+		}
+		nPem := c.WithRulesKept(map[string]string{"R5.pem": "R6.pem"}, func(construct, detail string) bool {
+			return strings.HasPrefix(construct, "ParsePEMCertificates|")
+		}, func() { c16Structure(c) })
+		c.Analysed, c.Notes = seen, c.Notes[:notes]
+		if pp := w.Func("agent/utils", "ParsePEMCertificates"); pp != nil {
+			c.Saw(pp)
+		}
+		c.Floor("R6.pem", nPem, 3, "obligations of the PEM bundle loop")
+	}
 	frameWriteRule(c, "R5.frames", yubiPkg)
 	client := w.NamedType(yubiPkg, "client")
 	server := w.NamedType(yubiPkg, "server")
